@@ -390,6 +390,16 @@ func (w *World) legalSuccessor(c raft.VConfig) raft.VConfig {
 			}
 		}
 	}
+	// a correct leader only accepts configurations in which some voter stays (onChangeConfig)
+	ok := false
+	for _, n := range out.Nodes {
+		if n.Voter && n.Action == 0 {
+			ok = true
+		}
+	}
+	if !ok {
+		return cloneConfig(c)
+	}
 	return out
 }
 
@@ -536,6 +546,10 @@ func (w *World) genReplUpdates(d *raft.VNode) (Op, bool) {
 func (w *World) GenOp() Op {
 	d := w.Node.Digest()
 	boot := d.Configs.Latest.Index > 0
+	if d.Closed != "" {
+		// stateLoop returns at its next select once the node is closed
+		return Op{Kind: "shutdown"}
+	}
 	// pending snapshot machinery first, sometimes
 	if d.SnapResult != nil && w.chance(50) {
 		return Op{Kind: "snapTaken"}
